@@ -132,6 +132,9 @@ def _configs(tier, thick=False):
         for dzr in ((("le", "ge") if tier != "quick" else ("le",)) if thick else (None,)):
             out.append(dict(kind="wiring", d="z", nx=2, ny=1, ncell=1, win=1.0, unit="cm", origin=True, layer="scalar", nanpat="none",
                             thick=thick, op=op, nz=None, dzrange=dzr, warm=True))
+    # ... and the very same call twice, with the window given in another unit than the positions
+    out.append(dict(kind="wiring", d="z", nx=2, ny=1, ncell=1, win=1.0, unit="au", origin=True, layer="scalar", nanpat="none",
+                    thick=thick, op="sum", nz=None, dzrange=("le" if thick else None), warm="same"))
     if tier != "quick" and not thick:
         out.append(dict(kind="wiring", d="v236", nx=1, ny=1, ncell=1, win=1.0, unit="cm", origin=True, layer="scalar", nanpat="none",
                         thick=False, op="sum"))
@@ -316,6 +319,7 @@ def _map_args(m, cfg, ndim, dg, O_in=None):
 
 def _wiring(m, cfg):
     import osyris
+    _WARM_SAME[0] = (cfg.get("warm") == "same")
     from osyris import Vector
     from symx import install, core
     from symx.arr import sarray, raw
@@ -579,9 +583,14 @@ def _wiring(m, cfg):
         m.require(unit == base_unit, "unit unchanged", key=f"assembly-unit:{tag}", info=unit)
 
 
+_WARM_SAME = [False]
+
+
 def _warm_kw(kw, thick):
     """Arguments of the first of two calls: the same objects (resolution dict, origin, ...), another depth / window size."""
     k2 = dict(kw)
+    if _WARM_SAME[0]:
+        return k2                            # the very same arguments twice
     if thick:
         k2["dz"] = kw["dx"] * 2.0           # concrete: two window sizes deep
     else:
